@@ -263,6 +263,8 @@ pub(crate) static mut Q_POPS: usize = 0;
 pub(crate) static mut ON_Q_PUSH: Option<fn()> = None;
 /// called before every pop — lets a harness run an environment step there
 pub(crate) static mut ON_Q_POP: Option<fn()> = None;
+/// called right after a pop that found the queue empty (the window between a waiter's look at the queue and its next step)
+pub(crate) static mut ON_Q_POP_NONE: Option<fn()> = None;
 
 pub(crate) fn gq_reset() {
     unsafe {
@@ -272,6 +274,7 @@ pub(crate) fn gq_reset() {
         Q_POPS = 0;
         ON_Q_PUSH = None;
         ON_Q_POP = None;
+        ON_Q_POP_NONE = None;
     }
 }
 
@@ -297,6 +300,9 @@ fn gq_pop_erased<T>() -> Option<T> {
             f();
         }
         if GQ_HEAD == GQ_TAIL {
+            if let Some(f) = ON_Q_POP_NONE {
+                f();
+            }
             return None;
         }
         Q_POPS += 1;
